@@ -95,6 +95,22 @@ func newEvent(eventType string, ts time.Time, payload interface{}) (Event, error
 	return Event{Type: eventType, TS: formatTime(ts), Data: data}, nil
 }
 
+// takenIDs returns every id that must not be issued again: live items and
+// pruned ones (a tombstoned id stays tombstoned on replay, so an item created
+// under it would silently vanish).
+func takenIDs(graph *Graph) map[string]*Task {
+	taken := make(map[string]*Task, len(graph.Tasks)+len(graph.Tombstones))
+	for id, task := range graph.Tasks {
+		taken[id] = task
+	}
+	for id := range graph.Tombstones {
+		if _, ok := taken[id]; !ok {
+			taken[id] = nil
+		}
+	}
+	return taken
+}
+
 func newShortID(existing map[string]*Task) (string, error) {
 	const maxAttempts = 64
 	for i := 0; i < maxAttempts; i++ {
